@@ -275,6 +275,7 @@ class Algebra:
         self.atoms = []
         self.by_name = {}
         self.root_rules = []     # [(radicand RF, root RF)]: sqrt(radicand) := root (root >= 0 stated by the caller)
+        self.point_pattern_hooks = []   # [(compiled regex on the atom name, fn(match, k, h in [0,1)) -> value)]
         self.point_hooks = {}    # atom name -> value at witness point k (dependent atoms, e.g. unit normals)
         self.factors = []        # fid -> poly dict (primitive, content-free, lc=1)
         self.factor_index = {}   # frozen key -> fid
@@ -1499,6 +1500,10 @@ class Algebra:
         hook = self.point_hooks.get(at.name)
         if hook is not None:
             return hook(k)
+        for rx, fn in self.point_pattern_hooks:
+            m = rx.match(at.name)
+            if m:
+                return fn(m, k, (hash_str("%s|%d" % (at.name, k)) % 100003) / 100003.0)
         h = (hash_str("%s|%d" % (at.name, k)) % 100003) / 100003.0
         h2 = hash_str("%s#%d" % (at.name, k)) % 2
         if k >= WIDE_K and not at.unit:
